@@ -25,6 +25,8 @@ class _State:
         self.alts = []                 # collected in the generic run
         self.seen_sites = set()
         self.zero_sites = set()        # sites whose other outcome is realised by a consistent zero specialisation
+        self.nested = []               # alternatives discovered while an alternative is analysed
+        self.depth = 0
         self.decisions = 0
         self.label = ""
 
@@ -186,14 +188,22 @@ def default_choice(interp, node, cond):
     outcome, zeros = generic_decision(cond)
     base = bool(outcome) if outcome is not None else False
     SCEN.decisions += 1
+    if SCEN.mode == "alt" and SCEN.zero_atoms and zeros and not (zeros <= SCEN.zero_atoms) and SCEN.depth < 3:
+        # inside a zero-specialised alternative: a further special outcome (second operand of a conjunction of zero tests, a test in
+        # a branch only this alternative reaches) is realised by specialising these symbols AS WELL
+        key = ("zero", frozenset(zeros | SCEN.zero_atoms))
+        if site not in SCEN.zero_sites and key not in SCEN.alts and key not in SCEN.nested:
+            SCEN.zero_sites.add(site)
+            SCEN.nested.append(key)
     if SCEN.mode == "generic":
         if zeros:
             # a consistent input specialisation realises the other outcome: analyse that (never the bare forced branch, which
             # would pair the special-case code path with generic, i.e. contradictory, data)
             key = ("zero", zeros)
-            SCEN.zero_sites.add(site)
-            if key not in SCEN.alts:
+            # one consistent specialisation per source site: the same test met again (another entry, another call) is the same branch
+            if site not in SCEN.zero_sites and key not in SCEN.alts:
                 SCEN.alts.append(key)
+            SCEN.zero_sites.add(site)
         elif site not in SCEN.seen_sites:
             SCEN.seen_sites.add(site)
             SCEN.alts.append(("force", site))
